@@ -282,8 +282,8 @@ def check_byte_xor(ctx, rule, P):
     ok_map = False
     for g in P.fns.values():
         if g.kind == "Closure" and g.j.get("parent_key") == fn.key:
-            r = evaluate(g).ret
-            if r.op == "bin" and r.a[0] == "BitXor":
+            r = strip_sites(evaluate(g).ret)
+            if (r.op == "bin" and r.a[0] == "BitXor") or (r.op == "call" and B.cname(r) == "BitXor::bitxor" and len(r.a[1]) == 2):
                 # collected, or handed as a whole to `extend` / `from_iter` of the result vector
                 ok_map = any(s.callee[0] == "Iterator::map" for s in ev.sites.values()) and any(s.callee[0] in ("Iterator::collect", "Extend::extend", "Vec::<T, A>::extend", "FromIterator::from_iter", "Vec::<T>::from_iter") for s in ev.sites.values())
     zips = [s for s in ev.sites.values() if s.callee[0] == "Iterator::zip"]
